@@ -50,7 +50,7 @@ theorem client_never_replies (c : Core) (hc : c.serverMode = false) (env : Env) 
   have h1 : (maybeAddNodeFromRequest c src version ro req env.now) = c := by
     simp [maybeAddNodeFromRequest, hc]
   have h2 := verifySelfPing_serverMode c src req env.now
-  unfold handleRequest
+  unfold handleRequest serveRequest
   rw [h1]
   refine ⟨?_, ?_⟩ <;> simp [h2, hc]
 
@@ -64,7 +64,7 @@ theorem client_never_stores (c : Core) (hc : c.serverMode = false) (env : Env) (
     simp [maybeAddNodeFromRequest, hc]
   have h2 := verifySelfPing_serverMode c src req env.now
   have h3 := verifySelfPing_stores c src req env.now
-  unfold handleRequest
+  unfold handleRequest serveRequest
   rw [h1]
   simp only [h2, hc, Bool.false_eq_true, ite_false]
   exact h3
